@@ -143,6 +143,12 @@ func (h *c05Sup) stepOne(k1, k2 int) bool {
 		vsymAssert(post == atWrite, "processing-a-committed-event-does-not-move-the-state")
 	case evDisconnect:
 		vsymAssert(post == NotConnectedState || post == atWrite, "disconnect-only-moves-to-not-connected")
+		// a disconnect reported for a connected link takes effect when it is processed, whatever
+		// commit lands in the window (the socket is gone): it is never abandoned
+		if pre != NotConnectedState {
+			vsymAssert(post == NotConnectedState, "disconnect-of-a-connected-link-takes-effect")
+			vsymAssert(h.s.lastReacted == NotConnectedState, "disconnect-is-reacted-to")
+		}
 	case evT7Timeout:
 		vsymAssert(post == atWrite || (atWrite == NotSelectedState && post == NotConnectedState), "t7-only-moves-not-selected-to-not-connected")
 		if selectedInWindow {
